@@ -110,10 +110,13 @@ def run(tier):
     rnd = random.Random(chk.seed * 65537 + 8)
     quick = tier == "quick"
     days, boundaries = class_days(quick, rnd)
-    if quick and len(days) > 44:
-        must = {"2015-01-01", "2017-01-01", "2017-06-30", "2017-07-01", days[-1]}
-        days = sorted(must | set(rnd.sample(days, 40)))
-    outs = pool_map(day_job, [(d, rnd.randrange(1 << 30), 4 if quick else 12) for d in days])
+    if quick:
+        # one representative per class: the LAST day of every interval between change days (the eve of the next
+        # change day), plus the first day of a seeded few; thorough takes first and last day of every interval
+        eves = {datetime.date.fromordinal(datetime.date.fromisoformat(b).toordinal() - 1).isoformat() for b in boundaries}
+        eves = {d for d in eves if d >= "2015-01-01"} | {boundaries[-1], "2015-01-01"}
+        days = sorted(eves | set(rnd.sample(boundaries, min(8, len(boundaries)))))
+    outs = pool_map(day_job, [(d, rnd.randrange(1 << 30), 3 if quick else 12) for d in days])
     cases = [o[0] for o in outs]
     tf, of = chk.work / "complete.json", chk.work / "complete.out.json"
     # several TLC runs in parallel
@@ -149,7 +152,7 @@ def run(tier):
     chk.sample({"days": days[:10]})
     chk.notes.update({"classes": len(boundaries), "days_checked": len(days), "population_runs": nruns})
     chk.cov["rule"] = (
-        "days = every change day >= 2015-01-01 (parameter entry, rounding entry, rule start, rule end + 1) and its eve (quick: a seeded 40 plus fixed ones; thorough: all); per day the derived dependency graph of the default targets (TLC) and 4 (thorough 12) "
+        "days = every change day >= 2015-01-01 (parameter entry, rounding entry, rule start, rule end + 1) and its eve (quick: the last day of EVERY interval plus a seeded 8 first days; thorough: first and last day of every interval); per day the derived dependency graph of the default targets (TLC) and 4 (thorough 12) "
         "branch-diverse populations computed through the public API; distinct_nontrivial = distinct days"
     )
     chk.assumptions += ["one day per interval between change days represents the interval (C07 establishes that the environment is constant in between)", "parameter reads are exercised dynamically (exceptions), not enumerated statically"]
